@@ -27,6 +27,8 @@ type MW struct {
 	Post  []ROp `json:"post,omitempty"`
 	Short bool  `json:"short,omitempty"` // does not call $next
 	Class bool  `json:"class,omitempty"` // registered as an object with a handle() method instead of a closure
+	Owner int   `json:"owner,omitempty"` // 0: registered on the server; g>0: on route group g
+	Late  bool  `json:"late,omitempty"`  // server middleware registered after the groups were created
 }
 
 type W struct {
@@ -38,6 +40,33 @@ type W struct {
 	FailWrite  int   `json:"fail_write_at,omitempty"`
 	Aborts     bool  `json:"aborts"`              // try a handler abort before every operation
 	OnFormat   bool  `json:"on_format,omitempty"` // a custom formatter for success()/error()
+	// Groups: sibling route groups created (with $server->group) after the early
+	// server middlewares; RouteOwner: who registers the tested route
+	Groups     int `json:"groups,omitempty"`
+	RouteOwner int `json:"route_owner,omitempty"`
+}
+
+// effective lists the middlewares (indices into w.MWs, in registration order) that wrap the tested route.
+func (w *W) effective() []int {
+	var early, rest []int
+	for i, m := range w.MWs {
+		switch {
+		case m.Owner == 0 && !m.Late:
+			early = append(early, i)
+		case m.Owner == 0 && m.Late && w.RouteOwner == 0:
+			rest = append(rest, i)
+		case m.Owner != 0 && m.Owner == w.RouteOwner:
+			rest = append(rest, i)
+		}
+	}
+	return append(early, rest...)
+}
+
+func (w *W) routePath() string {
+	if w.RouteOwner > 0 {
+		return fmt.Sprintf("/g%d/t", w.RouteOwner)
+	}
+	return "/t"
 }
 
 var codes = []int{200, 201, 202, 203, 204, 205, 226, 301, 302, 304, 307, 308, 400, 401, 403, 404, 409, 418, 422, 429, 451, 500, 502, 503}
@@ -128,6 +157,30 @@ func gen(r *verifsim.Rng, tier string) (any, hx.Sched) {
 		m.Short = r.Intn(8) == 0
 		m.Class = r.Intn(4) == 0
 		w.MWs = append(w.MWs, m)
+	}
+	if !many && r.Intn(4) == 0 {
+		// route groups: each group inherits the server's middlewares as of its creation
+		// and adds its own; siblings and late server middlewares must not affect it
+		w.Groups = 2 + r.Intn(2)
+		for g := 1; g <= w.Groups; g++ {
+			for k := 0; k < 1+r.Intn(2); k++ {
+				w.MWs = append(w.MWs, MW{Prio: verifsim.Pick(r, []int{-1, 0, 0, 1, 5}), Owner: g})
+			}
+		}
+		if r.Intn(2) == 0 {
+			w.MWs = append(w.MWs, MW{Prio: verifsim.Pick(r, []int{-1, 0, 1}), Late: true})
+		}
+		// registration order of the late ones = index order: shuffle them
+		first := 0
+		for first < len(w.MWs) && w.MWs[first].Owner == 0 && !w.MWs[first].Late {
+			first++
+		}
+		tail := w.MWs[first:]
+		for i := len(tail) - 1; i > 0; i-- {
+			j := r.Intn(i + 1)
+			tail[i], tail[j] = tail[j], tail[i]
+		}
+		w.RouteOwner = r.Intn(w.Groups + 1)
 	}
 	if r.Intn(2) == 0 {
 		w.HasOnError = true
@@ -333,18 +386,39 @@ func script(w *W) string {
 	if w.HasOnError {
 		fmt.Fprintf(&b, "$server->onError(function ($request, $response, $error) {\n    __mark(\"onerror\");\n%s});\n", seg("err", "$response", false))
 	}
-	for i, m := range w.MWs {
-		if m.Class {
-			fmt.Fprintf(&b, "$server->middleware(new Mw%d(), %d);\n", i, m.Prio)
-			continue
+	emit := func(i int, m MW) {
+		target := "$server"
+		if m.Owner > 0 {
+			target = fmt.Sprintf("$g%d", m.Owner)
 		}
-		fmt.Fprintf(&b, "$server->middleware(function ($request, $response, $next) {\n    __mark(\"enter%d\");\n%s", i, seg(fmt.Sprintf("pre%d", i), "$response", false))
+		if m.Class {
+			fmt.Fprintf(&b, "%s->middleware(new Mw%d(), %d);\n", target, i, m.Prio)
+			return
+		}
+		fmt.Fprintf(&b, "%s->middleware(function ($request, $response, $next) {\n    __mark(\"enter%d\");\n%s", target, i, seg(fmt.Sprintf("pre%d", i), "$response", false))
 		if !m.Short {
 			fmt.Fprintf(&b, "    $next($request, $response);\n    __mark(\"back%d\");\n", i)
 		}
 		fmt.Fprintf(&b, "%s    __mark(\"exit%d\");\n}, %d);\n", seg(fmt.Sprintf("post%d", i), "$response", false), i, m.Prio)
 	}
-	fmt.Fprintf(&b, "$server->get('/t', function ($req, $res) {\n    __mark(\"handler\");\n%s});\n", seg("h", "$res", true))
+	for i, m := range w.MWs {
+		if m.Owner == 0 && !m.Late {
+			emit(i, m)
+		}
+	}
+	for g := 1; g <= w.Groups; g++ {
+		fmt.Fprintf(&b, "$g%d = $server->group('/g%d');\n", g, g)
+	}
+	for i, m := range w.MWs {
+		if m.Owner != 0 || m.Late {
+			emit(i, m)
+		}
+	}
+	target := "$server"
+	if w.RouteOwner > 0 {
+		target = fmt.Sprintf("$g%d", w.RouteOwner)
+	}
+	fmt.Fprintf(&b, "%s->get('/t', function ($req, $res) {\n    __mark(\"handler\");\n%s});\n", target, seg("h", "$res", true))
 	return b.String()
 }
 
@@ -569,7 +643,7 @@ func exec(t *testing.T, x any, s hx.Sched) *hx.Outcome {
 				c := hx.NewSimConn()
 				c.Strict = w.Strict
 				c.FailWriteAt = w.FailWrite
-				p := hx.Serve(mux, c, hx.NewRequest("GET", "/t", nil, nil, nil))
+				p := hx.Serve(mux, c, hx.NewRequest("GET", w.routePath(), nil, nil, nil))
 				results = append(results, result{k, c, lg, p})
 			}
 			lg = nil
@@ -742,10 +816,7 @@ func check(o *hx.Outcome, w *W, all []numbered, bodies map[int]string, abort int
 		}
 	}
 	if !aborted && c.Failed == 0 && !threw {
-		idx := make([]int, len(w.MWs))
-		for i := range idx {
-			idx[i] = i
-		}
+		idx := w.effective()
 		sort.SliceStable(idx, func(a, b int) bool { return w.MWs[idx[a]].Prio < w.MWs[idx[b]].Prio })
 		var exp []string
 		depth := 0
